@@ -27,6 +27,9 @@ type c08Case struct {
 	// name of 249 bytes leaves no room for the name of a temporary file
 	// next to it: the rewrite cannot be written, which has to be reported.
 	CLIName string `json:"cli_name,omitempty"`
+	// ListText: the patch is named in a -P list with this text ("%P" stands
+	// for the patch file): blank lines, lines of blanks, odd separators.
+	ListText string `json:"list_text,omitempty"`
 	// TargetIndex selects the target of a native-fuzzing crasher (the fuzz
 	// target takes an index, not the text).
 	TargetIndex int `json:"target_index,omitempty"`
@@ -88,6 +91,12 @@ func evalC08(cs *c08Case) (sig, msg, stage string) {
 	return "", "", stage
 }
 
+// c08Lists are texts of -P lists around one patch file.
+var c08Lists = []string{
+	"%P\n", "%P", "\n%P\n\n", "%P\n   \n", "%P\n\t", " \t \n%P\n", "   \n", "\t", "%P\r\n", "%P\n%P\n", "# remark\n%P\n", "%P # remark\n", " %P\n", "%P \n",
+	"\x00\n%P\n", "%P\n" + "\n", "\n\n\n", "", "./%P\n", "%P\n./\n", "%P\n.\n", "%P\n\xff\xfe\n", strings.Repeat(" ", 5000) + "\n%P\n",
+}
+
 var numRe = regexp.MustCompile(`0x[0-9a-f]+|\d+`)
 
 // panicClass reduces a panic message to a stable class.
@@ -125,7 +134,14 @@ func c08CLI(cs *c08Case) (sig, msg string) {
 	if err := os.WriteFile(filepath.Join(dir, name), []byte(cs.Target), 0o644); err != nil {
 		return "", ""
 	}
-	r := run.CLI(dir, nil, "-p", "p.patch", name)
+	args := []string{"-p", "p.patch", name}
+	if cs.ListText != "" {
+		if err := os.WriteFile(filepath.Join(dir, "list.txt"), []byte(strings.ReplaceAll(cs.ListText, "%P", "p.patch")), 0o644); err != nil {
+			return "", ""
+		}
+		args = []string{"-P", "list.txt", name}
+	}
+	r := run.CLI(dir, nil, args...)
 	switch {
 	case r.StartErr != "":
 		return "", "" // harness problem, not judged
@@ -644,6 +660,10 @@ func TestC08(t *testing.T) {
 			c.Class("shape:" + it.Shape)
 		}
 		cs.CLI = cliEvery > 0 && nGen%cliEvery == 0
+		if cs.CLI && (nGen/cliEvery)%3 == 1 {
+			cs.ListText = rapid.SampledFrom(c08Lists).Draw(rt, "listText")
+			c.Class("cli:patch-named-in-a-list")
+		}
 		if cs.CLI && (nGen/cliEvery)%3 == 0 {
 			cs.CLIName = strings.Repeat("n", 246) + ".go"
 			c.Class("cli:target-name-of-249-bytes")
